@@ -252,7 +252,9 @@ def jobs(tier, seed):
             ['dup', 'dup', 'dup', 'new'], ['dup', 'new'], []]
     if tier != 'quick':
         hist += [['new', 'dup', 'dup', 'dup', 'dup', 'new'], ['dup', 'dup', 'dup', 'dup', 'dup', 'new', 'new'],
-                 ['new', 'new', 'new'], ['dup', 'dup', 'new', 'dup', 'dup', 'dup']]
+                 ['new', 'new', 'new'], ['dup', 'dup', 'new', 'dup', 'dup', 'dup'],
+                 ['dup', 'dup', 'dup', 'new', 'dup', 'dup', 'dup'], ['new', 'dup', 'new', 'dup', 'dup', 'dup', 'new'],
+                 ['dup', 'dup', 'dup', 'dup', 'new', 'dup', 'dup', 'dup', 'new'], ['new', 'new', 'dup', 'dup', 'dup', 'dup', 'dup', 'new']]
     for h in hist:
         for d0 in (0, 2) if h and h[0] == 'dup' else (0,):
             js.append({'harness': 'reno', 'weight': 3 ** len(h),
@@ -261,6 +263,12 @@ def jobs(tier, seed):
     js.append({'harness': 'reno', 'weight': 200,
                'cfg': {'events': [], 'flow_mss': 3, 'w0max': 4, 'dupack0': 0, 'max_timeouts': 2, 'maxadv': 2, 'appl': True},
                'opts': {'max_paths': 6000 if tier == 'quick' else 30000}})
+    if tier != 'quick':
+        # longer flows / larger initial windows (more segments in flight when the events arrive)
+        for h in (['new', 'dup', 'dup', 'dup', 'new'], ['dup', 'dup', 'dup', 'new', 'new'], ['new', 'new', 'dup', 'dup', 'dup']):
+            js.append({'harness': 'reno', 'weight': 3 ** len(h),
+                       'cfg': {'events': h, 'flow_mss': 6, 'w0max': 4, 'dupack0': 0, 'max_timeouts': 1, 'maxadv': 3},
+                       'opts': {'max_paths': 30000}})
     for ssth in (None, 600):
         for dt, rtt in ((0.5, 0.25), (2.0, 1.0)):
             js.append({'harness': 'cubic', 'weight': 40,
@@ -277,7 +285,7 @@ META = {
     'bounds': {'quick': 'Reno: flow of 3 MSS, initial window 1-2 MSS, then cwnd, ssthresh >= MSS, rttvar >= 0, rtt estimate > 0 arbitrary reals; '
                         'event histories of length <= 4 (new ACK advancing 1-2 segments with symbolic RTT sample, duplicate ACKs, timer expiries '
                         'at symbolic instants, at most 1 expiry per history (2 for the empty history), initial RTT estimate >= 1; CUBIC: defaults, 6 events new/dup chosen by the solver, concrete dt/RTT',
-               'thorough': 'histories <= 7, CUBIC 9 events'},
+               'thorough': 'histories <= 9, flows of 6 MSS with windows <= 4 MSS, CUBIC 9 events'},
     'assumptions': ['ACK numbers never exceed next_seq and never decrease (the statement speaks of new and duplicate ACKs)',
                     'MSS*MSS/cwnd is compared as the same rational term (division by the symbolic cwnd, cwnd >= MSS)'],
     'stubs': ['ACKs are injected by calling the sender\'s put() with crafted acknowledgement packets'],
